@@ -5,6 +5,7 @@ package gm
 
 import (
 	"bytes"
+	"fmt"
 	"strings"
 
 	"github.com/cosmos72/gomacro/fast"
@@ -19,6 +20,9 @@ type Interp struct {
 	Events []string
 	// Hook, if set, is called at every ev() before the event is recorded (fault injection).
 	Hook func(n int, event string)
+	// Book appends the executor bookkeeping observed at the ev() call to every event:
+	// " |isdef:<ExecFlags.IsDefer> depth:<Run.CurrEnv.CallDepth>"
+	Book bool
 	nEv  int
 }
 
@@ -46,6 +50,10 @@ func (g *Interp) record(args []interface{}) {
 		parts[i] = show.Show(a)
 	}
 	e := strings.Join(parts, " ")
+	if g.Book {
+		s := fast.VerifSnapshot(g.Ir)
+		e += fmt.Sprintf(" |isdef:%v depth:%d", s.ExecFlags&2 != 0, s.CurrEnvDepth)
+	}
 	g.nEv++
 	if g.Hook != nil {
 		g.Hook(g.nEv, e)
